@@ -326,8 +326,11 @@ def configs(tier, seed):
                                h_cube(1, 1, 3, asc, order, 'erg/cm2/s', 'wav', with_ap=False, with_unc=False), 1500))
             if not q:
                 cfgs.append(Config('SED n_ap=3 n_wav=4 %s order=%s unit=mJy' % ('asc' if asc else 'desc', order), h_sed(3, 4, asc, order, 'mJy'), 3000))
+                cfgs.append(Config('SED n_ap=5 n_wav=6 %s order=%s unit=erg/s given=nu' % ('asc' if asc else 'desc', order), h_sed(5, 6, asc, order, 'erg/s', 'nu'), 3000))
                 cfgs.append(Config('cube nm=3 n_ap=3 n_wav=4 %s order=%s unit=erg/s' % ('asc' if asc else 'desc', order),
                                    h_cube(3, 3, 4, asc, order, 'erg/s'), 3000))
+                cfgs.append(Config('cube nm=4 n_ap=2 n_wav=6 %s order=%s unit=Jy given=nu' % ('asc' if asc else 'desc', order),
+                                   h_cube(4, 2, 6, asc, order, 'Jy', 'nu'), 3000))
     cfgs.append(Config('conv nm=2 n_ap=2', h_conv(2, 2), 600))
     cfgs.append(Config('conv nm=3 n_ap=1 no-apertures', h_conv(3, 1, with_ap=False), 600))
     return cfgs
